@@ -1362,6 +1362,11 @@ def C06_cover(c):
     cover.cover_unichan(c, "unichan_close_buffered", [[S(11), S(12), CLOSE], [DRIVE(0, max_=9), DROPS(0)]], l1, invariants=UNICHAN_CLOSE_INV, max_paths=2500 if quick else None)
     if not quick:
         cover.cover_unichan(c, "unichan_close_2ev", [[S(11), S(12)], [CLOSE], [DRIVE(0, max_=9), DROPS(0)]], l1, invariants=UNICHAN_CLOSE_INV, max_paths=30000)
+        # two streams racing for one event while close runs (3.3 M states): design-level verdict only, too large for a graph dump
+        kf = kf_open(KF_SPURIOUS_EMPTY) is not None
+        c.mc("MC_UniChan", "close_s2", {"N": 4, "W": 16, "Procs": [0, 1, 2, 3], "Origins": [0], "OverflowChecks": True, "RelaxEmpty": kf, "Prefill": False, "Mode": '"fifo"', "MaxS": 2},
+             subst={"Script": "Script_close_s2"}, invariants=list(UNICHAN_CLOSE_INV), deadlock=False,
+             required_actions=["CloseLenHead", "CloseWakePeek", "CloseRunLoad", "CloseOpenRead", "DropCountB", "SyncWrite", "MCSlept"], timeout=2400, workers=10, heap="12g")
 
 
 def C06_sched(c):
